@@ -386,6 +386,9 @@ func init() {
 			return tuple(Value{K: KSlice}, mkBool(false)), true
 		},
 		"fmt.Sprintf": func(in *Interp, fr *Frame, a []Value) (Value, bool) {
+			if v, ok := in.fmtSprintf(concStrArg(a[0]), sliceArgs(a[1])); ok {
+				return v, true
+			}
 			args := []interface{}{concStrArg(a[0])}
 			if len(a) > 1 && a[1].R != nil {
 				for _, arg := range a[1].R.(*SliceV).S {
